@@ -106,12 +106,8 @@ func ruleEncoderContract(r *core.Run, p *core.Prog, rel string) {
 						out = append(out, ev{label: map[bool]string{true: "cap<need", false: "cap>=need"}[*cond] + ":" + core.Str(b.Y)})
 					}
 				}
-				if b, ok := core.BinOp(c, token.GTR, token.NEQ); ok {
-					if cc, ok := ast.Unparen(b.X).(*ast.CallExpr); ok && core.CallName(info, cc) == "builtin.len" {
-						if k, okc := core.ConstInt(info, b.Y); okc && k == 0 && *cond {
-							out = append(out, ev{label: "nonempty:" + core.Str(cc.Args[0])})
-						}
-					}
+				for _, nm := range nonEmptyFacts(info, c, *cond) {
+					out = append(out, ev{label: "nonempty:" + nm})
 				}
 			}
 			if a, ok := n.(*ast.AssignStmt); ok && len(a.Lhs) == 1 && len(a.Rhs) == 1 && core.ObjOf(info, a.Lhs[0]) == pBuf {
@@ -228,7 +224,7 @@ func ruleEncoderContract(r *core.Run, p *core.Prog, rel string) {
 					dstNil := false
 					for i := range t.path {
 						if tk, isC := g.Taken(t.path, i); isC {
-							if b, ok := core.BinOp(g.Nodes[t.path[i]].(ast.Expr), token.NEQ); ok && core.ObjOf(info, b.X) == pDst && core.IsNil(info, b.Y) && !tk {
+							if x, y, eq, ok := eqTest(g.Nodes[t.path[i]].(ast.Expr), tk); ok && core.ObjOf(info, x) == pDst && core.IsNil(info, y) && eq {
 								dstNil = true
 							}
 						}
@@ -255,33 +251,7 @@ func ruleEncoderContract(r *core.Run, p *core.Prog, rel string) {
 		// pointer at high levels even for empty input: the pointer variable filled from &data[0] under
 		// the len(data) > 0 guard must start out non-nil (finding F26)
 		if short == "lz4" {
-			core.Walk(f.Decl.Body, false, func(x ast.Node) bool {
-				a, ok := x.(*ast.AssignStmt)
-				if !ok || len(a.Lhs) != 1 || a.Tok != token.ASSIGN {
-					return true
-				}
-				if !strings.Contains(core.Str(a.Rhs[0]), "&"+pData.Name()+"[0]") {
-					return true
-				}
-				o := core.ObjOf(info, a.Lhs[0])
-				initialised := false
-				core.Walk(f.Decl.Body, false, func(y ast.Node) bool {
-					if d, ok := y.(*ast.AssignStmt); ok && d.Tok == token.DEFINE && len(d.Lhs) == 1 && core.ObjOf(info, d.Lhs[0]) == o && !core.IsNil(info, d.Rhs[0]) {
-						initialised = true
-					}
-					if vs, ok := y.(*ast.ValueSpec); ok {
-						for i, nm := range vs.Names {
-							if info.Defs[nm] == o && i < len(vs.Values) && !core.IsNil(info, vs.Values[i]) {
-								initialised = true
-							}
-						}
-					}
-					return true
-				})
-				r.Check(rule, short+".Compress:source-pointer-never-nil", p.Rel(a.Pos()), initialised,
-					"for empty input the source pointer handed to LZ4_compress_HC stays nil; at compression levels >= 10 the library dereferences it (SIGSEGV)")
-				return true
-			})
+			ruleSourcePointerNeverNil(r, p, f, pData, short)
 		}
 		// the size the scratch buffer is resliced to must be the codec's own worst-case bound
 		core.Walk(f.Decl.Body, false, func(x ast.Node) bool {
@@ -378,24 +348,18 @@ func ruleEncoderContract(r *core.Run, p *core.Prog, rel string) {
 			var out []ev
 			if cond != nil {
 				c := n.(ast.Expr)
-				if b, ok := core.BinOp(c, token.NEQ, token.EQL); ok && readCount != nil {
-					lhs, rhs := b.X, b.Y
+				if lhs, rhs, eq, ok := eqTest(c, *cond); ok && readCount != nil {
 					if core.ObjOf(info, rhs) == readCount {
 						lhs, rhs = rhs, lhs
 					}
 					if core.ObjOf(info, lhs) == readCount {
 						if cc, ok := ast.Unparen(rhs).(*ast.CallExpr); ok && core.CallName(info, cc) == "builtin.len" && core.ObjOf(info, cc.Args[0]) == readInto {
-							differs := (b.Op == token.NEQ) == *cond
-							out = append(out, ev{label: map[bool]string{true: "short-read", false: "full-read"}[differs]})
+							out = append(out, ev{label: map[bool]string{true: "full-read", false: "short-read"}[eq]})
 						}
 					}
 				}
-				if b, ok := core.BinOp(c, token.GTR, token.NEQ); ok {
-					if cc, ok := ast.Unparen(b.X).(*ast.CallExpr); ok && core.CallName(info, cc) == "builtin.len" {
-						if k, okc := core.ConstInt(info, b.Y); okc && k == 0 && *cond {
-							out = append(out, ev{label: "nonempty:" + core.Str(cc.Args[0])})
-						}
-					}
+				for _, nm := range nonEmptyFacts(info, c, *cond) {
+					out = append(out, ev{label: "nonempty:" + nm})
 				}
 			}
 			if a, ok := n.(*ast.AssignStmt); ok && len(a.Lhs) == 1 && len(a.Rhs) == 1 && core.ObjOf(info, a.Lhs[0]) == pOut {
@@ -475,34 +439,44 @@ func ruleEncoderContract(r *core.Run, p *core.Prog, rel string) {
 			// returned length: not len(out) / constant; must stem from the library call (or the read count for null)
 			if t.ret != nil {
 				res := ast.Unparen(t.ret.Results[0])
-				okR := false
-				if o := core.ObjOf(info, res); o != nil {
-					if short == "null" && o == readCount {
-						okR = true
+				// where the returned length comes from: the decoder's own report (a call result, or the length of the slice a
+				// decoder call returned), for the null codec the read count; never the length of a parameter or a constant
+				var origin func(e ast.Expr, depth int) bool
+				origin = func(e ast.Expr, depth int) bool {
+					if depth > 5 {
+						return false
 					}
-					if d := singleDef(info, f.Decl.Body, o); d != nil {
-						d = stripConv(info, d)
-						if c, ok := d.(*ast.CallExpr); ok {
-							if core.CallName(info, c) == "builtin.len" {
-								okR = core.ObjOf(info, c.Args[0]) != pOut && core.ObjOf(info, c.Args[0]) != pIn
-							} else {
-								okR = true
+					e = stripConv(info, resolveLocal(info, f.Decl.Body, stripConv(info, e)))
+					if c, ok := e.(*ast.CallExpr); ok {
+						if core.CallName(info, c) == "builtin.len" && len(c.Args) == 1 {
+							x := resolveLocal(info, f.Decl.Body, c.Args[0])
+							if o := core.ObjOf(info, x); o != nil {
+								if o == pOut || o == pIn {
+									return false
+								}
+								if dc, _ := defCall(info, f.Decl.Body, o); dc != nil {
+									return true // length of what a decoder call returned
+								}
+								return false
+							}
+							_, isCall := ast.Unparen(x).(*ast.CallExpr)
+							return isCall
+						}
+						return true // reported by a call
+					}
+					if o := core.ObjOf(info, e); o != nil {
+						if short == "null" && o == readCount {
+							return true
+						}
+						if dc, _ := defCall(info, f.Decl.Body, o); dc != nil {
+							if _, m := core.MethodCall(info, dc); m != "Read" || short == "null" {
+								return true
 							}
 						}
-					} else {
-						// defined by a multi-value assignment from a call
-						core.Walk(f.Decl.Body, false, func(x ast.Node) bool {
-							if as, ok := x.(*ast.AssignStmt); ok && len(as.Rhs) == 1 && len(as.Lhs) == 2 && core.ObjOf(info, as.Lhs[0]) == o {
-								if c, isCall := as.Rhs[0].(*ast.CallExpr); isCall {
-									if _, m := core.MethodCall(info, c); m != "Read" || short == "null" {
-										okR = true
-									}
-								}
-							}
-							return true
-						})
 					}
+					return false
 				}
+				okR := origin(res, 0)
 				if !okR {
 					badRet = "Decompress returns " + core.Str(res) + ", which is not the length reported by the decoder: " + pathLines(p, g, t.path)
 				}
@@ -589,4 +563,188 @@ func ruleEncoderNew(r *core.Run, p *core.Prog) {
 		}
 	}
 	r.Check(rule, "encoder.New:unknown-type-rejected", p.Rel(sw.Pos()), hasDefaultErr, "the default branch must return (nil, error): an unknown type byte in a damaged file must not yield a decoder")
+}
+
+// ruleSourcePointerNeverNil: liblz4 (unlike libzstd, which documents NULL as valid for empty input) dereferences the source
+// pointer at high compression levels even for empty input (finding F26). On every path to the LZ4_compress_HC call the
+// pointer passed as source must be the address of something: &data[0] where data is known to be non-empty, or the address of
+// another object; never nil / never left at its zero value. The pointer may be a local (any assignment structure) or the result
+// of a helper whose every return is such an address.
+func ruleSourcePointerNeverNil(r *core.Run, p *core.Prog, f *core.Fn, pData types.Object, short string) {
+	const rule = "encoder-contract"
+	info := f.Info()
+	g := core.GraphOf(f)
+	var ccall *ast.CallExpr
+	for _, c := range core.Calls(f.Decl.Body, false) {
+		if strings.Contains(core.Str(c.Fun), "LZ4_compress_HC") && len(c.Args) >= 1 {
+			ccall = c
+		}
+	}
+	if ccall == nil {
+		return // the pure-Go implementation has no such call
+	}
+	strip := func(i *types.Info, e ast.Expr) ast.Expr {
+		for {
+			e = ast.Unparen(e)
+			c, ok := e.(*ast.CallExpr)
+			if !ok || len(c.Args) != 1 {
+				return e
+			}
+			if tv, ok := i.Types[c.Fun]; ok && tv.IsType() {
+				e = c.Args[0]
+				continue
+			}
+			return e
+		}
+	}
+	// state of a pointer-valued expression: "addr" (address of an object other than an element of `par`), "addr0:par"
+	// (address of par[0]: needs par non-empty), "nil", "?"
+	var helperOK func(i *types.Info, hc *ast.CallExpr, par types.Object) string
+	classify := func(i *types.Info, e ast.Expr, par types.Object) string {
+		e = strip(i, e)
+		if core.IsNil(i, e) {
+			return "nil"
+		}
+		if hc, ok := e.(*ast.CallExpr); ok {
+			if why := helperOK(i, hc, par); why == "" {
+				return "addr"
+			}
+			return "?"
+		}
+		if u, ok := e.(*ast.UnaryExpr); ok && u.Op == token.AND {
+			if ix, ok := ast.Unparen(u.X).(*ast.IndexExpr); ok && par != nil && core.ObjOf(i, ix.X) == par {
+				return "addr0"
+			}
+			return "addr"
+		}
+		return "?"
+	}
+	// pathStates: for every path from the entry of fn to node `until` (or to every return if until < 0) the state of the value
+	// `of(path-node)`; reports the first bad path
+	checkFn := func(fn *core.Fn, par types.Object, target func(n ast.Node) (ast.Expr, bool)) string {
+		fi := fn.Info()
+		fg := core.GraphOf(fn)
+		if fn == f {
+			fg = g
+		}
+		var ptr types.Object
+		// the tracked variable: the target expression, if it is a local
+		for _, n := range fg.Nodes {
+			if n == nil {
+				continue
+			}
+			if e, ok := target(n); ok {
+				if o, isVar := core.ObjOf(fi, strip(fi, e)).(*types.Var); isVar && !o.IsField() {
+					ptr = o
+				}
+			}
+		}
+		paths, ok := fg.Paths(core.Entry, core.Exit, 20000)
+		if !ok {
+			return "too many paths"
+		}
+		for _, path := range paths {
+			state := "nil" // zero value of an unassigned pointer
+			nonEmpty := false
+			for i, id := range path {
+				n := fg.Nodes[id]
+				if n == nil {
+					continue
+				}
+				if tk, isC := fg.Taken(path, i); isC {
+					for _, nm := range nonEmptyFacts(fi, n.(ast.Expr), tk) {
+						if par != nil && nm == par.Name() {
+							nonEmpty = true
+						}
+					}
+					continue
+				}
+				if ptr != nil {
+					var rhs ast.Expr
+					switch st := n.(type) {
+					case *ast.AssignStmt:
+						for j, l := range st.Lhs {
+							if core.ObjOf(fi, l) == types.Object(ptr) && j < len(st.Rhs) {
+								rhs = st.Rhs[j]
+							}
+						}
+					case *ast.ValueSpec:
+						for j, nm := range st.Names {
+							if fi.Defs[nm] == types.Object(ptr) {
+								if j < len(st.Values) {
+									rhs = st.Values[j]
+								} else {
+									state = "nil"
+								}
+							}
+						}
+					}
+					if rhs != nil {
+						state = classify(fi, rhs, par)
+						if state == "addr0" && !nonEmpty {
+							return fmt.Sprintf("&%s[0] is taken although %s may be empty: %s", par.Name(), par.Name(), pathLines(p, fg, path))
+						}
+					}
+				}
+				if e, isTarget := target(n); isTarget {
+					st := state
+					if ptr == nil || core.ObjOf(fi, strip(fi, e)) != types.Object(ptr) {
+						st = classify(fi, e, par)
+						if st == "addr0" && !nonEmpty {
+							return fmt.Sprintf("&%s[0] is taken although %s may be empty: %s", par.Name(), par.Name(), pathLines(p, fg, path))
+						}
+					}
+					if st != "addr" && st != "addr0" {
+						return fmt.Sprintf("the source pointer is %s on %s", map[string]string{"nil": "nil", "?": "of unknown origin"}[st], pathLines(p, fg, path))
+					}
+				}
+			}
+		}
+		return ""
+	}
+	depth := 0
+	helperOK = func(i *types.Info, hc *ast.CallExpr, par types.Object) string {
+		// helper(data): every return of the helper must be an address
+		fo, _ := core.Callee(i, hc).(*types.Func)
+		h := p.FnOf(fo)
+		if h == nil || depth > 1 {
+			return "the source pointer comes from " + core.Str(hc.Fun) + ", which is not a (small) module function"
+		}
+		depth++
+		defer func() { depth-- }()
+		var hp types.Object
+		hs := h.Obj.Type().(*types.Signature)
+		for ai, a := range hc.Args {
+			if par != nil && core.ObjOf(i, a) == par && ai < hs.Params().Len() {
+				hp = hs.Params().At(ai)
+			}
+		}
+		return checkFn(h, hp, func(n ast.Node) (ast.Expr, bool) {
+			if rs, ok := n.(*ast.ReturnStmt); ok && len(rs.Results) == 1 {
+				return rs.Results[0], true
+			}
+			return nil, false
+		})
+	}
+	src := strip(info, ccall.Args[0])
+	why := ""
+	if hc, ok := src.(*ast.CallExpr); ok {
+		why = helperOK(info, hc, pData)
+	} else {
+		why = checkFn(f, pData, func(n ast.Node) (ast.Expr, bool) {
+			found := false
+			core.Walk(n, false, func(x ast.Node) bool {
+				if x == ast.Node(ccall) {
+					found = true
+				}
+				return !found
+			})
+			if found {
+				return ccall.Args[0], true
+			}
+			return nil, false
+		})
+	}
+	r.Check(rule, short+".Compress:source-pointer-never-nil", p.Rel(ccall.Pos()), why == "",
+		"the source pointer handed to LZ4_compress_HC must be a valid address on every path, also for empty input (at compression levels >= 10 the library dereferences it: SIGSEGV): "+why)
 }
